@@ -62,7 +62,8 @@ def escape_signature(exc: BaseException) -> str:
     if inner is not None and inner.filename == '<string>' or (fsic_frames and fsic_frames[-1].line and 'exec(' in (fsic_frames[-1].line or '')):
         return 'c13.escape:syntax-check-executes-statement'
     if fsic_frames and 'format(' in (fsic_frames[-1].line or ''):
-        return 'c13.escape:str-format-on-stray-braces'
+        # the recorded finding F12 is the template of parse_equation; str.format on user text anywhere else is another defect
+        return 'c13.escape:str-format-on-stray-braces' if fn == 'parse_equation' else f'c13.escape:str-format-on-user-text:{fn}'
     return f'c13.escape:{type(exc).__name__}:{fn}'
 
 
@@ -106,6 +107,20 @@ class ParserTotal(BoundedCheck):
                 else:
                     toks.insert(j, rnd.choice('()[]{}<>`'))
             yield ''.join(toks)
+        if self.shard == 2 % self.nshards:
+            # systematic single-token edits of the catalogue scripts: every token deleted in turn, every token doubled in turn
+            # (a missing operator next to a {parameter}, <error>, index or fragment is an ordinary slip of the pen)
+            _re = __import__('re')
+            for p_ in G.small_programs():
+                if not p_:
+                    continue
+                text = G.render_script(p_)
+                toks = _re.findall(r'\s+|\w+|.', text)
+                for j in range(len(toks)):
+                    if toks[j].isspace():
+                        continue
+                    yield ''.join(toks[:j] + toks[j + 1:])
+                    yield ''.join(toks[:j] + [toks[j], ' ', toks[j]] + toks[j + 1:])
         if self.shard == 1 % self.nshards:
             # every reserved word in every term position: bare, indexed and called, on either side of the equals sign, alone and after a valid line
             import keyword as _kw
